@@ -129,6 +129,76 @@ static void observe(tr::Ev& e, const El* obj, size_t n, const void* addr)
   e.nums("seen", before.begin(), before.end()).nums("seen_after", after.begin(), after.end());
 }
 
+// ---- the source POINTER itself lives in sandbox memory (receiver is a tainted_volatile<T*>):
+// the adversary redirects it to another in-sandbox string while RLBox runs its range check.
+// A snapshot is acceptable if it comes from the string whose address was read before that
+// (src), or from the new one (alt) provided the new address was range-checked as well.
+static const long ALT = SRC + 1024;
+static unsigned char* g_pcell = nullptr;
+static bool g_pcell_written = false;
+static std::string g_checks_after;
+static void pcell_hook(const void* p1, const void*)
+{
+  uintptr_t a = reinterpret_cast<uintptr_t>(p1);
+  const char* region = (a >= BASE + SRC && a < BASE + SRC + 64)   ? "src"
+                       : (a >= BASE + ALT && a < BASE + ALT + 64) ? "alt"
+                                                                    : "other";
+  if (g_pcell_written) {
+    g_checks_after += std::string(g_checks_after.empty() ? "" : ",") + "\"" + region + "\"";
+  } else if (std::strcmp(region, "src") == 0) {
+    uint32_t rep = (uint32_t)ALT;
+    std::memcpy(g_pcell, &rep, 4);
+    g_pcell_written = true;
+  }
+}
+static void pcell_tests()
+{
+  auto pp = sb->malloc_in_sandbox<char*>();
+  g_pcell = reinterpret_cast<unsigned char*>(pp.UNSAFE_unverified());
+  for (const char* real : { "string/std::string", "string/unique_ptr", "buffer_address", "range/char" }) {
+    std::memcpy(MEM + SRC, "\1\2\1\0", 4);
+    std::memcpy(MEM + ALT, "\3\3\3\3\3\0", 6);
+    *pp = sb->UNSAFE_accept_pointer(reinterpret_cast<char*>(BASE + SRC));
+    g_pcell_written = false;
+    g_checks_after.clear();
+    Sbx::same_sandbox_hook = pcell_hook;
+    std::string region = "none";
+    auto classify = [&](const char* s) { region = s[0] == 1 ? "src" : s[0] == 3 ? "alt" : "other"; };
+    const char* outc = "ok";
+    try {
+      std::string r = real;
+      if (r == "string/std::string") {
+        (*pp).copy_and_verify_string([&](std::string s) {
+          classify(s.c_str());
+          return 0;
+        });
+      } else if (r == "string/unique_ptr") {
+        (*pp).copy_and_verify_string([&](std::unique_ptr<char[]> s) {
+          classify(s.get());
+          return 0;
+        });
+      } else if (r == "buffer_address") {
+        uintptr_t a = (*pp).copy_and_verify_buffer_address([](uintptr_t v) { return v; }, 4);
+        region = a == BASE + SRC ? "src" : a == BASE + ALT ? "alt" : "other";
+      } else {
+        (*pp).copy_and_verify_range(
+          [&](std::unique_ptr<char[]> s) {
+            classify(s.get());
+            return 0;
+          },
+          3);
+      }
+    } catch (const std::runtime_error&) {
+      outc = "abort";
+    }
+    Sbx::same_sandbox_hook = nullptr;
+    tr::Ev e("pcopy");
+    e.str("real", real).str("out", outc).str("region", region).boolean("redirected", g_pcell_written);
+    e.raw("checks_after", "[" + g_checks_after + "]");
+    out.put(e);
+  }
+}
+
 int main(int argc, char** argv)
 {
   if (argc < 3) {
@@ -299,6 +369,7 @@ int main(int argc, char** argv)
       out.put(e);
     }
   }
+  pcell_tests();
   sandbox.destroy_sandbox();
   out.close();
   return 0;
